@@ -86,7 +86,8 @@ def plan(label, fn):
         if key in TOTAL_FAMILY:
             return [(TOTAL_FAMILY[key], pred_total, "entry point panics")]
         import families_ext
-        return families_ext.plan_total(key)
+        pl = families_ext.plan_total(key)
+        return pl if pl else families_ext.plan(label, fn)
     try:
         import families_ext
         return families_ext.plan(label, fn)
